@@ -12,6 +12,7 @@ import (
 	"time"
 
 	"github.com/couchbaselabs/rosmar"
+	sqlite3 "github.com/mattn/go-sqlite3"
 )
 
 // ---------------------------------------------------------------------------------------
@@ -153,6 +154,10 @@ type Sched struct {
 	Log       func(format string, args ...any)
 	// Sites seen: reach probes
 	SiteHits map[string]int
+	// cooperative fault points: number of SQLITE_BUSY errors still to inject before COMMIT
+	CommitBusy      int
+	CommitBusyFired int
+	onPoint         func(name, detail string) // called when a task passes a point hook (after its release)
 }
 
 func curGID() uint64 {
@@ -188,12 +193,14 @@ func (s *Sched) Install() {
 	rosmar.VerifLockHook = s.lockHook
 	rosmar.VerifPointHook = s.pointHook
 	rosmar.VerifNoteHook = s.noteHook
+	rosmar.VerifFaultHook = s.faultHook
 }
 
 func Uninstall() {
 	rosmar.VerifLockHook = nil
 	rosmar.VerifPointHook = nil
 	rosmar.VerifNoteHook = nil
+	rosmar.VerifFaultHook = nil
 }
 
 func (s *Sched) SetParking(on bool) { s.mu.Lock(); s.parking = on; s.mu.Unlock() }
@@ -309,7 +316,25 @@ func (s *Sched) pointHook(name, detail string) {
 	}
 	if t := s.current(name, detail); t != nil {
 		s.park(t, nil, name)
+		if s.onPoint != nil {
+			s.onPoint(name, detail)
+		}
 	}
+}
+
+// faultHook is rosmar's cooperative fault point: it injects a retryable SQLITE_BUSY before COMMIT.
+func (s *Sched) faultHook(name string) error {
+	if name != "txn.commit" {
+		return nil
+	}
+	s.mu.Lock()
+	defer s.mu.Unlock()
+	if s.CommitBusy > 0 {
+		s.CommitBusy--
+		s.CommitBusyFired++
+		return sqlite3.Error{Code: sqlite3.ErrBusy}
+	}
+	return nil
 }
 
 func (s *Sched) noteHook(name, detail string, n uint64) {
